@@ -31,7 +31,8 @@ pub struct SemCfg {
 
 pub const VAR_NAMES: [&str; 4] = ["v0", "v1", "v2", "v3"];
 pub const FUNC_NAMES: [&str; 4] = ["t0", "t1", "t2", "t3"];
-pub const UNBOUND: [&str; 2] = ["u0", "u1"];
+/// never bound by the generators; two of them coincide with globally registered functions
+pub const UNBOUND: [&str; 4] = ["u0", "u1", "sum", "vh_g0"];
 
 pub const NUMS: [&str; 20] = [
     "0", "1", "2", "3", "7", "10", "0.5", "1.5", "2.50", "0.1", "0.2", "100", "1.0", "3.000", "12", "255", "1024", "0.25", "4", "8",
@@ -583,7 +584,7 @@ pub fn gen_statements(src: &mut Src, cfg: &SemCfg, sc: &SemCtx, max: usize, fail
         let target = |src: &mut Src| -> String {
             if fn_targets && src.chance(1, 8) {
                 let mut pool: Vec<String> = sc.funcs_of(Ty::Any).into_iter().map(|x| x.0).collect();
-                pool.push(UNBOUND[0].to_string());
+                pool.extend(UNBOUND.iter().map(|s| s.to_string()));
                 src.choose(&pool).clone()
             } else {
                 src.choose(&VAR_NAMES).to_string()
